@@ -37,9 +37,16 @@ def main(argv=None) -> int:
         translator_tie(ctx)
         return ctx.finish()
     except HarnessError as e:
+        # the correspondence could not be evaluated at all (Coq rejected the generated cases, output unparsable, model
+        # self-check failed ...): the property is not shown to hold on this tree -> reported, without a failing input
         print(f"HARNESS-ERROR {args.pid}: {e}", file=sys.stderr)
         traceback.print_exc()
-        return 2
+        if args.replay:
+            return 2
+        ctx.violation(f"the correspondence of {args.pid} could not be evaluated ({str(e)[:300]})",
+                      {"broken": f"harness run of {args.pid}", "error": str(e)[:3000], "traceback": traceback.format_exc()[-3000:]},
+                      {"part": "B", "broken": "harness error"}, found_input=False)
+        return ctx.finish()
 
 
 if __name__ == "__main__":
